@@ -117,7 +117,7 @@ func assocIndexRespaced(src string) bool {
 	return assoc && hit
 }
 
-var fatalBashError = regexp.MustCompile(`line \d+: .*(syntax error|division by 0|invalid indirect expansion|bad substitution|unbound variable|exponent less than 0|substring expression < 0|attempted assignment|invalid arithmetic|expression expected|operand expected|value too great|readonly variable|invalid variable name|not a valid identifier|bad array subscript|expression recursion)`)
+var fatalBashError = regexp.MustCompile(`(?s)line \d+: .*(syntax error|division by 0|invalid indirect expansion|bad substitution|unbound variable|exponent less than 0|substring expression < 0|attempted assignment|invalid arithmetic|expression expected|operand expected|value too great|readonly variable|invalid variable name|not a valid identifier|bad array subscript|expression recursion)`)
 
 // errorAbortsLine: bash abandons the rest of the current complete command (input line)
 // after a fatal expansion or arithmetic error; the printer changes which commands share a
